@@ -1,6 +1,579 @@
 package c12
 
-import "verif/harness/internal/hx"
+// Option / plan / chunk objects through Marshal -> Unmarshal (spec diff only: the Lean side
+// holds the field-coverage tables, not the byte layout).
+//
+//   options  every field of query.ProcessorOptions that is not on the recorded "stays local" list
+//            is given a non-zero value by reflection, so a decoder that forgets a field shows up;
+//            Expr / Condition / ValueCondition come from the statement generator
+//   plans    random chains of logical plan nodes over a schema built from a generated condition
+//   chunks   random result batches (every column type, nils, tags, interval index, dims)
 
-// runCodecs: option / plan / chunk objects through Marshal -> Unmarshal (filled in below).
-func runCodecs(c *hx.Ctx, g *gen, n int) error { return nil }
+import (
+	"fmt"
+	"math"
+	"reflect"
+	"sort"
+	"strings"
+	"time"
+
+	"github.com/openGemini/openGemini/engine/executor"
+	"github.com/openGemini/openGemini/engine/hybridqp"
+	"github.com/openGemini/openGemini/lib/config"
+	"github.com/openGemini/openGemini/lib/util/lifted/influx/influxql"
+	"github.com/openGemini/openGemini/lib/util/lifted/influx/query"
+	"github.com/openGemini/openGemini/lib/util/lifted/vm/protoparser/influx"
+
+	"verif/harness/internal/hx"
+)
+
+// fields of ProcessorOptions that stay on the node that built them (mirror of
+// OG.C12.optionsLocal; the Lean theorem proves fields ⊆ encoded ∪ this list)
+var optionsLocal = map[string]bool{
+	"Exprs": true, "FieldAux": true, "TagAux": true, "Parallel": true, "InterruptCh": true, "Authorizer": true,
+	"ChunkedSize": true, "Chunked": true, "AbortChan": true, "RowsChan": true, "isTimeFirstKey": true, "StmtId": true,
+	"CompareOffset": true, "LowerOpt": true, "BinOp": true, "IsCountValues": true, "SimpleTagset": true, "RemoveMetric": true,
+	"NoPushDownDim": true, "ctx": true, "InConditons": true, "IsSameDims": true, "IsArrowQuery": true,
+}
+
+// a condition the statement parser accepts and that survives String() -> ParseExpr (the
+// expression-level defects are reported by runExpr, not again here)
+func (g *gen) cleanCondition() (influxql.Expr, string) {
+	for i := 0; i < 30; i++ {
+		g.feats = map[string]bool{}
+		g.outOfDomain = false
+		text := g.cond(1)
+		r := roundTrip(text)
+		if r.accepted && r.t1 == r.t2 && r.panicked == "" {
+			return r.e1, text
+		}
+	}
+	e, _ := yaccParse("a = 1")
+	return e, "a = 1"
+}
+
+func (g *gen) word() string { return g.pick([]string{"a", "host", "region", "usage_user", "my col", "é", "x.y", "", "sel\"ect"}) }
+
+func (g *gen) measurement() *influxql.Measurement {
+	m := &influxql.Measurement{Database: g.word(), RetentionPolicy: g.word(), Name: g.word(), IsTarget: g.r.Bool(),
+		SystemIterator: g.pick([]string{"", "_series"}), EngineType: config.EngineType(g.r.Intn(2)), IsTimeSorted: g.r.Bool()}
+	if m.Name == "" {
+		m.Name = "m"
+	}
+	return m
+}
+
+func (g *gen) options() *query.ProcessorOptions {
+	opt := &query.ProcessorOptions{}
+	v := reflect.ValueOf(opt).Elem()
+	t := v.Type()
+	for i := 0; i < t.NumField(); i++ {
+		f := t.Field(i)
+		if optionsLocal[f.Name] || !f.IsExported() {
+			continue
+		}
+		fv := v.Field(i)
+		switch f.Name {
+		case "Expr":
+			e, _ := g.cleanCondition()
+			opt.Expr = e
+		case "Condition":
+			e, _ := g.cleanCondition()
+			opt.Condition = e
+		case "ValueCondition":
+			e, _ := g.cleanCondition()
+			opt.ValueCondition = e
+		case "Aux":
+			for k := 0; k < 1+g.r.Intn(3); k++ {
+				opt.Aux = append(opt.Aux, influxql.VarRef{Val: g.word(), Type: influxql.DataType(1 + g.r.Intn(5))})
+			}
+		case "Sources":
+			for k := 0; k < 1+g.r.Intn(2); k++ {
+				opt.Sources = append(opt.Sources, g.measurement())
+			}
+		case "Interval":
+			opt.Interval = hybridqp.Interval{Duration: time.Duration(1+g.r.Intn(1000)) * time.Second, Offset: time.Duration(g.r.Intn(1000))}
+		case "GroupBy":
+			opt.GroupBy = map[string]struct{}{g.word(): {}, "k2": {}}
+		case "Location":
+			opt.Location = time.UTC
+		case "Fill":
+			opt.Fill = influxql.FillOption(g.r.Intn(5))
+		case "FillValue":
+			switch g.r.Intn(3) {
+			case 0:
+				opt.FillValue = float64(g.r.Intn(1000)) / 4
+			case 1:
+				opt.FillValue = int64(1 + g.r.Intn(1000)) // fill(5): the grammar hands an int64 on
+			default:
+				opt.FillValue = nil
+			}
+		case "SortFields":
+			opt.SortFields = influxql.SortFields{{Name: "a", Ascending: g.r.Bool()}, {Name: "usage_user", Ascending: true}}
+		case "SeriesKey":
+			opt.SeriesKey = []byte(g.word() + "k")
+		case "Dimensions":
+			opt.Dimensions = []string{g.word(), "d2"}
+		default:
+			switch fv.Kind() {
+			case reflect.String:
+				fv.SetString(g.word() + "s")
+			case reflect.Bool:
+				fv.SetBool(true)
+			case reflect.Int, reflect.Int32, reflect.Int64:
+				fv.SetInt(int64(1 + g.r.Intn(1<<20)))
+			case reflect.Uint64, reflect.Uint32:
+				fv.SetUint(uint64(1 + g.r.Intn(1<<20)))
+			default:
+				panic("harness: no generator for ProcessorOptions." + f.Name + " (" + fv.Kind().String() + "): add one, or list the field in optionsLocal and OG.C12.optionsLocal")
+			}
+		}
+	}
+	return opt
+}
+
+func canonField(name string, v reflect.Value) string {
+	if !v.IsValid() {
+		return "<invalid>"
+	}
+	if name == "FillValue" {
+		// the wire carries a float64; the consumers convert with TransToFloat / TransToInteger,
+		// so the numeric value is what must survive (unset = 0)
+		switch x := v.Interface().(type) {
+		case nil:
+			return "0"
+		case float64:
+			return fmt.Sprintf("%v", x)
+		case int64:
+			return fmt.Sprintf("%v", float64(x))
+		default:
+			return fmt.Sprintf("%T", x)
+		}
+	}
+	switch x := v.Interface().(type) {
+	case influxql.Expr:
+		if x == nil {
+			return "nil"
+		}
+		return dump(x)
+	case []influxql.Source:
+		var parts []string
+		for _, s := range x {
+			m, ok := s.(*influxql.Measurement)
+			if !ok {
+				parts = append(parts, fmt.Sprintf("%T", s))
+				continue
+			}
+			parts = append(parts, fmt.Sprintf("%q.%q.%q target=%v sys=%q eng=%d sorted=%v", m.Database, m.RetentionPolicy, m.Name, m.IsTarget, m.SystemIterator, m.EngineType, m.IsTimeSorted))
+		}
+		return strings.Join(parts, ";")
+	case influxql.SortFields:
+		var parts []string
+		for _, f := range x {
+			parts = append(parts, fmt.Sprintf("%q asc=%v", f.Name, f.Ascending))
+		}
+		return strings.Join(parts, ";")
+	case *time.Location:
+		if x == nil {
+			return "nil"
+		}
+		return x.String()
+	case map[string]struct{}:
+		ks := make([]string, 0, len(x))
+		for k := range x {
+			ks = append(ks, k)
+		}
+		sort.Strings(ks)
+		return fmt.Sprintf("%q", ks)
+	}
+	return fmt.Sprintf("%#v", v.Interface())
+}
+
+func runOptions(c *hx.Ctx, g *gen) {
+	opt := g.options()
+	var got query.ProcessorOptions
+	var err error
+	var buf []byte
+	p := hx.Safe(func() {
+		buf, err = opt.MarshalBinary()
+		if err == nil {
+			err = got.UnmarshalBinary(buf)
+		}
+	})
+	ans := "ok"
+	var diffs []string
+	if p != "" {
+		ans = "err " + p
+	} else if err != nil {
+		ans = "err " + err.Error()
+	} else {
+		a, b := reflect.ValueOf(opt).Elem(), reflect.ValueOf(&got).Elem()
+		for i := 0; i < a.NumField(); i++ {
+			f := a.Type().Field(i)
+			if optionsLocal[f.Name] || !f.IsExported() {
+				continue
+			}
+			if x, y := canonField(f.Name, a.Field(i)), canonField(f.Name, b.Field(i)); x != y {
+				diffs = append(diffs, fmt.Sprintf("%s: sent %s, received %s", f.Name, x, y))
+			}
+		}
+		if len(diffs) > 0 {
+			ans = "differs"
+		}
+	}
+	line := c.Emit("codec options", ans)
+	c.Case(fmt.Sprintf("options %d", line), true)
+	c.Count("codec:options")
+	if ans != "ok" {
+		c.Violation(line, "", "ProcessorOptions Marshal->Unmarshal: "+ans+" "+strings.Join(diffs, " | "))
+	}
+}
+
+// ---------------------------------------------------------------------------------------------
+// plans
+
+func (g *gen) schema() *executor.QuerySchema {
+	cond, _ := g.cleanCondition()
+	opt := query.ProcessorOptions{Condition: cond, Dimensions: []string{"host"}, Ascending: true, ChunkSize: 1 + g.r.Intn(1000)}
+	fields := influxql.Fields{
+		&influxql.Field{Expr: &influxql.VarRef{Val: "id", Type: influxql.Integer}},
+		&influxql.Field{Expr: &influxql.VarRef{Val: "value", Type: influxql.Float}},
+		&influxql.Field{Expr: &influxql.Call{Name: "mean", Args: []influxql.Expr{&influxql.VarRef{Val: "usage", Type: influxql.Float}}}},
+	}
+	names := []string{"id", "value", "mean"}
+	s := executor.NewQuerySchema(fields, names, &opt, nil)
+	s.AddTable(&influxql.Measurement{Name: "mst"}, s.MakeRefs())
+	return s
+}
+
+type planStep struct {
+	kind, a, b, c int
+	flag       bool
+}
+
+func (g *gen) plan(s *executor.QuerySchema) hybridqp.QueryNode {
+	steps := make([]planStep, 2+g.r.Intn(8))
+	for i := range steps {
+		steps[i] = planStep{g.r.Intn(18), g.r.Intn(1000), g.r.Intn(100), g.r.Intn(3), g.r.Bool()}
+	}
+	return buildPlan(s, steps)
+}
+
+// buildPlan applies the steps to a series node; a merge step merges two copies of the plan so far
+// (LogicalMerge wants inputs of one shape).
+func buildPlan(s *executor.QuerySchema, steps []planStep) hybridqp.QueryNode {
+	var n hybridqp.QueryNode = executor.NewLogicalSeries(s)
+	etypes := []executor.ExchangeType{executor.NODE_EXCHANGE, executor.SHARD_EXCHANGE, executor.SERIES_EXCHANGE, executor.READER_EXCHANGE}
+	for i, st := range steps {
+		switch st.kind {
+		case 0:
+			n = executor.NewLogicalIndexScan(n, s)
+		case 1:
+			n = executor.NewLogicalReader(n, s)
+		case 2:
+			n = executor.NewLogicalTagSubset(n, s)
+		case 3:
+			switch st.c {
+			case 0:
+				n = executor.NewLogicalAggregate(n, s)
+			case 1:
+				n = executor.NewCountDistinctAggregate(n, s)
+			default:
+				n = executor.NewLogicalTagSetAggregate(n, s)
+			}
+		case 4:
+			n = executor.NewLogicalMerge([]hybridqp.QueryNode{n, buildPlan(s, steps[:i])}, s)
+		case 5:
+			n = executor.NewLogicalSortMerge([]hybridqp.QueryNode{n}, s)
+		case 6:
+			n = executor.NewLogicalLimit(n, s, executor.LimitTransformParameters{Limit: st.a, Offset: st.b, LimitType: hybridqp.LimitType(st.c)})
+		case 7:
+			n = executor.NewLogicalDistinct(n, s)
+		case 8:
+			n = executor.NewLogicalInterval(n, s)
+		case 9:
+			n = executor.NewLogicalFill(n, s)
+		case 10:
+			n = executor.NewLogicalAlign(n, s)
+		case 11:
+			n = executor.NewLogicalProject(n, s)
+		case 12:
+			n = executor.NewLogicalFilter(n, s)
+		case 13:
+			ex := executor.NewLogicalExchange(n, etypes[st.a%len(etypes)], nil, s)
+			if st.flag {
+				ex.ToProducer()
+			}
+			n = ex
+		case 14:
+			n = executor.NewLogicalSlidingWindow(n, s)
+		case 15:
+			n = executor.NewLogicalOrderBy(n, s)
+		case 16:
+			n = executor.NewLogicalGroupBy(n, s)
+		default:
+			ha := executor.NewLogicalHashAgg(n, s, etypes[st.a%len(etypes)], nil)
+			if st.flag {
+				ha.ToProducer()
+			}
+			n = ha
+		}
+	}
+	return n
+}
+
+func intField(v reflect.Value, name string) string {
+	f := v.FieldByName(name)
+	if !f.IsValid() {
+		return ""
+	}
+	switch f.Kind() {
+	case reflect.Int, reflect.Int8, reflect.Int16, reflect.Int32, reflect.Int64:
+		return fmt.Sprintf(" %s=%d", name, f.Int())
+	case reflect.Uint, reflect.Uint8, reflect.Uint16, reflect.Uint32, reflect.Uint64:
+		return fmt.Sprintf(" %s=%d", name, f.Uint())
+	case reflect.Bool:
+		return fmt.Sprintf(" %s=%v", name, f.Bool())
+	}
+	return ""
+}
+
+func dumpPlan(n hybridqp.QueryNode) string {
+	if n == nil {
+		return "nil"
+	}
+	v := reflect.ValueOf(n)
+	for v.Kind() == reflect.Ptr {
+		v = v.Elem()
+	}
+	s := fmt.Sprintf("%T", n)
+	for _, f := range []string{"eType", "eRole", "aggType", "isCountDistinct"} {
+		s += intField(v, f)
+	}
+	if l, ok := n.(*executor.LogicalLimit); ok {
+		s += fmt.Sprintf(" limit=%d/%d/%d", l.LimitPara.Limit, l.LimitPara.Offset, l.LimitPara.LimitType)
+	}
+	var cs []string
+	for _, c := range n.Children() {
+		cs = append(cs, dumpPlan(c))
+	}
+	return s + "(" + strings.Join(cs, ",") + ")"
+}
+
+func runPlan(c *hx.Ctx, g *gen) {
+	var ans, want, have string
+	p := hx.Safe(func() {
+		s := g.schema()
+		n := g.plan(s)
+		want = dumpPlan(n)
+		buf, err := executor.MarshalBinary(n)
+		if err != nil {
+			ans = "err marshal " + err.Error()
+			return
+		}
+		back, err := executor.UnmarshalBinary(buf, s)
+		if err != nil {
+			ans = "err unmarshal " + err.Error()
+			return
+		}
+		have = dumpPlan(back)
+		// the schema message that travels with a plan
+		pb := query.EncodeQuerySchema(s)
+		s2, err := query.DecodeQuerySchema(pb, s.Options())
+		if err != nil {
+			ans = "err schema " + err.Error()
+			return
+		}
+		if fmt.Sprint(s2.GetColumnNames()) != fmt.Sprint(s.GetColumnNames()) || s2.GetQueryFields().String() != s.GetQueryFields().String() {
+			ans = "differs schema"
+			return
+		}
+		if want == have {
+			ans = "ok"
+		} else {
+			ans = "differs"
+		}
+	})
+	if p != "" {
+		ans = "err " + p
+	}
+	line := c.Emit("codec plan", ans)
+	c.Case("plan "+want, true)
+	c.Count("codec:plan")
+	if ans != "ok" {
+		c.Violation(line, "", "plan Marshal->Unmarshal: "+ans+" sent "+want+" received "+have)
+	}
+}
+
+// ---------------------------------------------------------------------------------------------
+// chunks
+
+func dumpColumn(col executor.Column, rows int) string {
+	var b strings.Builder
+	fmt.Fprintf(&b, "type=%d len=%d nil=%d", col.DataType(), col.Length(), col.NilCount())
+	for _, f := range col.FloatValues() {
+		fmt.Fprintf(&b, " f%016x", math.Float64bits(f))
+	}
+	for _, i := range col.IntegerValues() {
+		fmt.Fprintf(&b, " i%d", i)
+	}
+	if col.DataType() == influxql.String || col.DataType() == influxql.Tag {
+		bs, off := col.GetStringBytes()
+		fmt.Fprintf(&b, " s%x o%v", bs, off)
+	}
+	for _, x := range col.BooleanValues() {
+		fmt.Fprintf(&b, " b%v", x)
+	}
+	for _, t := range col.ColumnTimes() {
+		fmt.Fprintf(&b, " t%d", t)
+	}
+	b.WriteString(" nils=")
+	for i := 0; i < rows; i++ {
+		if col.IsNilV2(i) {
+			b.WriteByte('1')
+		} else {
+			b.WriteByte('0')
+		}
+	}
+	return b.String()
+}
+
+func dumpChunk(ck executor.Chunk) string {
+	var b strings.Builder
+	fmt.Fprintf(&b, "name=%q time=%v tagIndex=%v interval=%v", ck.Name(), ck.Time(), ck.TagIndex(), ck.IntervalIndex())
+	for _, t := range ck.Tags() {
+		fmt.Fprintf(&b, " tag=%x", t.Subset(nil))
+	}
+	rows := len(ck.Time())
+	for i, col := range ck.Columns() {
+		if col == nil {
+			fmt.Fprintf(&b, " col%d=nil", i)
+			continue
+		}
+		fmt.Fprintf(&b, " col%d{%s}", i, dumpColumn(col, rows))
+	}
+	for i, col := range ck.Dims() {
+		if col == nil {
+			fmt.Fprintf(&b, " dim%d=nil", i)
+			continue
+		}
+		fmt.Fprintf(&b, " dim%d{%s}", i, dumpColumn(col, rows))
+	}
+	return b.String()
+}
+
+func (g *gen) chunk() (executor.Chunk, hybridqp.RowDataType) {
+	types := []influxql.DataType{influxql.Integer, influxql.Float, influxql.String, influxql.Boolean}
+	nc := 1 + g.r.Intn(4)
+	var refs []influxql.VarRef
+	for i := 0; i < nc; i++ {
+		refs = append(refs, influxql.VarRef{Val: fmt.Sprintf("c%d", i), Type: types[g.r.Intn(len(types))]})
+	}
+	rdt := hybridqp.NewRowDataTypeImpl(refs...)
+	ck := executor.NewChunkBuilder(rdt).NewChunk(g.word())
+	rows := g.r.Intn(40)
+	ntags := 1 + g.r.Intn(3)
+	for i := 0; i < ntags && i <= rows; i++ {
+		pts := influx.PointTags{{Key: "host", Value: g.word()}, {Key: "id", Value: fmt.Sprint(i)}}
+		ck.AppendTagsAndIndex(*executor.NewChunkTags(pts, []string{"host", "id"}), i*rows/ntags)
+	}
+	for i := 0; i < rows; i++ {
+		ck.AppendTime(int64(g.r.U64() >> 1))
+		if g.r.Chance(20) {
+			ck.AppendIntervalIndex(i)
+		}
+	}
+	for j := 0; j < nc; j++ {
+		col := ck.Column(j)
+		for i := 0; i < rows; i++ {
+			if g.r.Chance(25) {
+				col.AppendNil()
+				continue
+			}
+			col.AppendNotNil()
+			switch refs[j].Type {
+			case influxql.Integer:
+				col.AppendIntegerValue(int64(g.r.U64()))
+			case influxql.Float:
+				col.AppendFloatValue(math.Float64frombits(g.r.U64()))
+			case influxql.String:
+				col.AppendStringValue(g.randString())
+			default:
+				col.AppendBooleanValue(g.r.Bool())
+			}
+		}
+		if g.r.Chance(15) {
+			for i := 0; i < rows; i++ {
+				col.AppendColumnTime(int64(i))
+			}
+		}
+	}
+	if g.r.Chance(30) {
+		d := executor.NewColumnImpl(influxql.String)
+		for i := 0; i < rows; i++ {
+			d.AppendStringValue(g.word())
+			d.AppendNotNil()
+		}
+		ck.AddDim(d)
+	}
+	return ck, rdt
+}
+
+func runChunk(c *hx.Ctx, g *gen) {
+	var ans, want, have string
+	p := hx.Safe(func() {
+		ck, _ := g.chunk()
+		want = dumpChunk(ck)
+		impl := ck.(*executor.ChunkImpl)
+		buf, err := impl.Marshal(make([]byte, 0, impl.Size()))
+		if err != nil {
+			ans = "err marshal " + err.Error()
+			return
+		}
+		if len(buf) > impl.Size() {
+			ans = fmt.Sprintf("differs size: Size()=%d, marshalled %d bytes", impl.Size(), len(buf))
+			return
+		}
+		back := &executor.ChunkImpl{}
+		if err := back.Unmarshal(buf); err != nil {
+			ans = "err unmarshal " + err.Error()
+			return
+		}
+		have = dumpChunk(back)
+		if want == have {
+			ans = "ok"
+		} else {
+			ans = "differs"
+		}
+	})
+	if p != "" {
+		ans = "err " + p
+	}
+	line := c.Emit("codec chunk", ans)
+	c.Case(fmt.Sprintf("chunk %d", line), true)
+	c.Count("codec:chunk")
+	if ans != "ok" {
+		if len(want) > 400 {
+			want = want[:400] + "…"
+		}
+		if len(have) > 400 {
+			have = have[:400] + "…"
+		}
+		c.Violation(line, "", "chunk Marshal->Unmarshal: "+ans+" sent "+want+" received "+have)
+	}
+}
+
+// runCodecs: n objects, a third of each kind.
+func runCodecs(c *hx.Ctx, g *gen, n int) error {
+	for i := 0; i < n; i++ {
+		switch i % 3 {
+		case 0:
+			runOptions(c, g)
+		case 1:
+			runPlan(c, g)
+		default:
+			runChunk(c, g)
+		}
+	}
+	return nil
+}
